@@ -269,9 +269,22 @@ def external():
     if rc != 0: print("SIM-BUILD-FAILED\n" + out); shutil.rmtree(root, ignore_errors=True); return 2
     props = ["C%02d" % i for i in range(1, 17)] + ["C18"] if "--all-props" in sys.argv else [prop]
     tier = "thorough" if "--thorough" in sys.argv else "quick"
+    plain_built = False
     for pr in props:
         t0 = time.time()
         rc, out = sh(f"{sim}/target/release/hpke-sim run {pr} --tier {tier} --evidence {root}/ev.json --replay-dir {root}/rp --known /nonexistent", cwd=sim)
+        if rc == 0 and "--no-plain" not in sys.argv:
+            # second build profile (ordinary release build of hpke), as ./check does
+            if not plain_built:
+                brc, bout = sh(f"CARGO_TARGET_DIR={sim}/target-plain cargo build --profile plain --offline 2>&1 | tail -5", cwd=sim)
+                plain_built = True
+            rc2, out2 = sh(f"{sim}/target-plain/plain/hpke-sim run {pr} --tier {tier} --scale 0.34 --profile-tag plain --evidence {root}/ev2.json --replay-dir {root}/rp --known /nonexistent", cwd=sim)
+            if rc2 == 1:
+                mv = re.search(r"VIOLATION property=(\S+) replay=(\S+)", out2)
+                rrc, rout = sh(f"{sim}/target-plain/plain/hpke-sim replay {mv.group(2)}", cwd=sim)
+                body = out2[out2.index("violation in run"):] if "violation in run" in out2 else out2
+                print(f"== {pr}: CAUGHT under the plain build profile (replay {'ok' if rrc == 1 else 'FAILED'}) {time.time() - t0:.0f}s\n" + body[:1800])
+                continue
         if rc == 1:
             mv = re.search(r"VIOLATION property=(\S+) replay=(\S+)", out)
             rrc, rout = sh(f"{sim}/target/release/hpke-sim replay {mv.group(2)}", cwd=sim)
